@@ -130,6 +130,8 @@ def classify(c):
 
 FLOPS = {"+": "FADD", "-": "FSUB", "*": "FMUL", "/": "FDIV"}
 ENUM_N = {"[]": 0, "['a']": 1, "['a', 'b']": 2, "('a', 'b', 'c')": 3, "{'a': 1, 'b': 2, 'c': 3, 'd': 4}": 4}
+REPEAT_LEN = {"len('abc' * a0)": 3, "len(a0 * [1, 2, 3])": 3, "len((1, 2, 3) * a0)": 3, "len(b'abc' * a0)": 3,
+              "len('' * a0)": 0, "len([] * a0)": 0}
 PRINT_BASE = {"str(a0)": 10, "'%d' % a0": 10, "'%x' % a0": 16, "'%o' % a0": 8}
 
 
@@ -199,13 +201,15 @@ def term(c, rep):
     if k in ("rng_slice", "rng_slice_len"):
         return "(CRngSlice %s %s %s %s)" % (" ".join(cz(int(x)) for x in a[:3]), " ".join(copt_arg(x) for x in a[3:6]),
                                          cbool(k == "rng_slice_len"), o)
+    if k in ("repeat", "repeat_big") and op in REPEAT_LEN:
+        return "(CRepeat %s %d %s %s)" % (fb, REPEAT_LEN[op], cz(int(a[0])), o)
     if k == "enum":
         inner = op[len("[p[0] for p in enumerate("):-len(", a0)]")]
         return "(CEnum %s %s %d %s)" % (fb, cz(int(a[0])), ENUM_N[inner], o)
     return None
 
 
-CAPS_QUICK = {"bin": 300, "cmp": 80, "un": 40, "cmpif": 80, "cmpfi": 80, "mixif": 40, "mixfi": 40, "parse": 80,
+CAPS_QUICK = {"bin": 300, "cmp": 80, "un": 40, "cmpif": 80, "cmpfi": 80, "mixif": 20, "mixfi": 20, "parse": 50,
               "rng_in": 60, "rng_idx": 60, "rng_slice": 40, "rng_slice_len": 40}
 CAPS_THOROUGH = {"bin": 8000, "cmp": 2500, "cmpif": 2500, "cmpfi": 2500, "mixif": 1200, "mixfi": 1200, "parse": 2500,
                  "rng_in": 2000, "rng_idx": 2000}
